@@ -2,7 +2,6 @@ package main
 
 import (
 	"go/token"
-	"go/types"
 	"strings"
 
 	"golang.org/x/tools/go/ssa"
@@ -33,11 +32,7 @@ func init() {
 
 func shimEntries(w *World) []*ssa.Function {
 	fs := w.methodsOf(shimPkg, "Server")
-	for _, n := range []string{"New", "newShimAgent"} {
-		if f := w.Func(shimPkg, n); f != nil {
-			fs = append(fs, f)
-		}
-	}
+	fs = append(fs, pkgFuncs(w, shimPkg)...)
 	fs = append(fs, w.methodsOf(shimPkg, "signer")...)
 	fs = append(fs, w.methodsOf(shimPkg, "certificate")...)
 	return fs
@@ -153,7 +148,7 @@ func c10HardCert(c *Ctx, m *shimModel) {
 			c.Check(okNil && noEffect, "R1.hardcert", "AddHardCert|re-adding is a no-op", w.Pos(r.Pos()), "returns nil before touching the agent", "adding an already present hardware certificate is not a pure no-op")
 		}
 		for _, lf := range w.Leaves(r.Results[0], r) {
-			if strings.HasSuffix(w.Expr(lf.Val), "shimagent.errAgentNotFoundKey") {
+			if ex := w.Expr(lf.Val); strings.HasPrefix(ex, "global:"+RepoMod+"/"+shimPkg+".") && !f.Any(b, func(l Lit) bool { return m.isLoadOfField(l.V, m.fLocked) && l.Pol }) {
 				nAbsent++
 				// reached only after the whole listing was scanned
 				done := f.Any(b, func(l Lit) bool {
@@ -332,7 +327,7 @@ func framingRules(c *Ctx, rule string, pkgs []string) {
 	w := c.w
 	bounds := map[string]int64{}
 	for _, pkg := range pkgs {
-		rd, wr := w.Func(pkg, "read"), w.Func(pkg, "write")
+		rd, wr := framingFns(w, pkg)
 		if rd == nil || wr == nil {
 			c.Unresolved(rule, "framed read/write helpers of "+pkg)
 			continue
@@ -430,14 +425,10 @@ func framingRules(c *Ctx, rule string, pkgs []string) {
 		if pkgs[0] == yubiPkg {
 			other = shimPkg
 		}
-		a, b := w.ByPath[RepoMod+"/"+pkgs[0]], w.ByPath[RepoMod+"/"+other]
-		if a != nil && b != nil {
-			ca, _ := a.Types.Scope().Lookup("maxAgentResponseBytes").(*types.Const)
-			cb, _ := b.Types.Scope().Lookup("maxAgentResponseBytes").(*types.Const)
-			if ca != nil && cb != nil {
-				c.Check(ca.Val().ExactString() == cb.Val().ExactString(), rule, "read|both copies of the framing use the same bound", "-", "equal constants", "the two framed readers disagree on the maximum frame size: "+ca.Val().ExactString()+" vs "+cb.Val().ExactString())
-			}
-		}
+		ord, _ := framingFns(w, other)
+		mine, _ := framingFns(w, pkgs[0])
+		ba, bb := frameBound(w, mine), frameBound(w, ord)
+		c.Check(ba >= 0 && ba == bb, rule, "read|both copies of the framing use the same bound", "-", "equal bounds", "the two framed readers disagree on the maximum frame size: "+itoa(int(ba))+" vs "+itoa(int(bb)))
 	}
 }
 
@@ -548,7 +539,7 @@ var c10ErrIdioms = map[string]string{
 
 func c10Deletions(c *Ctx, m *shimModel) {
 	w := c.w
-	ctor := w.Func(shimPkg, "newShimAgent")
+	ctor := shimConstructor(w, m)
 	var remove *ssa.Function
 	n := 0
 	for _, a := range w.FieldAccesses(m.Server, m.fCerts) {
